@@ -53,11 +53,16 @@ CHECKS = {
             "C02_addr (for EVERY list of path parts, every index tuple, every object address and every memory - all header words "
             "at once - the offset computed by the emitted statements equals the documented layout's address expression docAddr), "
             "C02_get_set_getp, C02_typeid_member, C02_len / C02_len_static (product of the documented dimensions), C02_text (the "
-            "printed offset code is the print of exactly those statements). The tie compares the model's text with the real "
+            "printed offset code is the print of exactly those statements); and the link to the layout model: "
+            "C02_index_is_view_index (in EVERY memory the item address the generated code computes is the address a Python view "
+            "computes from the strides it caches - same constants, same header words - and for dynamically sized items the table entry "
+            "stored there) and C02_array_item (on memory the writer produced, for every shape, axis order and valid index tuple that "
+            "address holds the item the constructor was given for the tuple's memory position). The tie compares the model's text with the real "
             "_gen_c_api() byte for byte on random types and the IR semantics with the real compiled accessors on real objects.",
             "The C semantics of the printed statement forms is the trusted reading Stmt.exec, validated on every compiled accessor "
-            "call of each run; that docAddr is also the address the Python view uses is witnessed by the oracle (compiled vs "
-            "Python accessor on the same object), and for the layout model under C06.",
+            "call of each run; that docAddr is also the address the Python view uses is a theorem for array indexing "
+            "(C02_index_is_view_index) and for struct fields / paths through references witnessed by the oracle (compiled vs Python "
+            "accessor on the same object) and by leafAt executed against the library's slot addresses.",
             "7/C02"),
     "C07": ("Lean 4 proof: pointwise-update semantics of the generated setter and the complete load list of every accessor by "
             "induction over the path; tie as C02 plus whole-buffer diffs around real setter calls; ASan+UBSan stand-alone builds",
